@@ -106,7 +106,9 @@ CurHashes == {<<t, ver[t]>> : t \in TaskNames}
 NoHit == [id |-> <<>>, key |-> <<>>, v |-> 0, sub |-> {}]
 \* _get_call_node: recorded nodes of the call whose recorded subtree tasks are all current (and recorded at all)
 UltNodes(k) == {i \in 1..Len(nodeTab) : nodeTab[i].key = k /\ nodeTab[i].sub # {} /\ nodeTab[i].sub \subseteq CurHashes}
-Fits(t, u) == \A r \in Res : u[r] + Units(t, r) <= Limit(r)
+\* units of a JOB: the call-time option limits=... (child spec field u, non-empty) replaces the task's own limits
+JU(J, j, r) == IF DOMAIN J[j].u # {} THEN (IF r \in DOMAIN J[j].u THEN J[j].u[r] ELSE 0) ELSE Units(J[j].t, r)
+FitsJ(J, j, u) == \A r \in Res : u[r] + JU(J, j, r) <= Limit(r)
 Kids(j) == {k \in DOMAIN jobs : Len(k) = Len(j) + 1 /\ SubSeq(k, 1, Len(j)) = j}
 Parent(j) == SubSeq(j, 1, Len(j) - 1)
 NewJob(t, arg, ph) ==
@@ -119,6 +121,7 @@ NewJob(t, arg, ph) ==
    sub |-> {},      \* subtree task set of the job (known when it resolves / is rejected)
    nid |-> <<>>,    \* identity of its call node: <<key, value, identities of the child call nodes>>
    hit |-> NoHit,   \* the recorded node an ultimate-reduction hit replays
+   u |-> <<>>,      \* call-time limits override (empty: the task's own limits apply)
    fk |-> 0,        \* fork key of the handle argument (0: the task takes no handle / not yet forked)
    nf |-> 0]        \* handle_forks counter of this job as a parent
 \* phases: argwait (an argument is still a pending expression), execq (exec event queued),
@@ -147,10 +150,10 @@ RECURSIVE Renom(_, _, _, _)
 Renom(ws, u, ready, rest) ==
   IF ws = <<>> THEN <<ready, rest>>
   ELSE LET j == Head(ws) IN
-       IF Fits(jobs[j].t, u)
-       THEN Renom(Tail(ws), [r \in Res |-> u[r] + Units(jobs[j].t, r)], Append(ready, j), rest)
+       IF FitsJ(jobs, j, u)
+       THEN Renom(Tail(ws), [r \in Res |-> u[r] + JU(jobs, j, r)], Append(ready, j), rest)
        ELSE Renom(Tail(ws), u, ready, Append(rest, j))
-Release(j, u) == [r \in Res |-> u[r] - Units(jobs[j].t, r)]
+Release(j, u) == [r \in Res |-> u[r] - JU(jobs, j, r)]
 ExecEvs(s) == [i \in 1..Len(s) |-> [ty |-> "exec", j |-> s[i]]]
 
 (* a job that holds units releases them and renominates; served jobs (cached / collapsed) do not.
@@ -214,18 +217,18 @@ Exec(j) ==
        /\ jobs' = [J EXCEPT ![j].ph = "drystop"]
        /\ evq' = Tail(evq)
        /\ UNCHANGED <<running, pend, waiting, used, cse, wf, rootval, submitted, evalTab, nodeTab>>
-  ELSE IF ~Fits(t, used) THEN                                         \* Queue for limits
+  ELSE IF ~FitsJ(J, j, used) THEN                                         \* Queue for limits
        /\ jobs' = [J EXCEPT ![j].ph = "waiting", ![j].nom = FALSE] /\ waiting' = Append(waiting, j)
        /\ evq' = Tail(evq)
        /\ UNCHANGED <<running, pend, used, cse, wf, rootval, submitted, evalTab, nodeTab>>
   ELSE IF KindOf(t) = "noexec" THEN                                   \* RejectNoExecutor: the units were
        /\ jobs' = [J EXCEPT ![j].ph = "doneq", ![j].held = TRUE]      \* consumed, the job is rejected
-       /\ used' = [r \in Res |-> used[r] + Units(t, r)]               \* before reaching an executor
+       /\ used' = [r \in Res |-> used[r] + JU(J, j, r)]              \* before reaching an executor
        /\ evq' = Append(Tail(evq), [ty |-> "reject", j |-> j])
        /\ UNCHANGED <<running, pend, waiting, cse, wf, rootval, submitted, evalTab, nodeTab>>
   ELSE                                                                \* Submit
        /\ jobs' = [J EXCEPT ![j].ph = "running", ![j].held = TRUE]
-       /\ used' = [r \in Res |-> used[r] + Units(t, r)]
+       /\ used' = [r \in Res |-> used[r] + JU(J, j, r)]
        /\ running' = running \cup {j}
        /\ pend' = IF Scope(t) = "NONE" THEN pend ELSE (k :> j) @@ pend   \* (nobody looks it up for NONE)
        /\ submitted' = Append(submitted, k)
@@ -246,7 +249,8 @@ ArgX(t, parg, i) ==
   IF c.k = "c" THEN <<"v", c.v>> ELSE IF c.k = "p" THEN <<"v", parg + c.v>>
   ELSE <<"s", SlotOf(t, parg, c.i)>>
 SlotOf(t, parg, i) ==
-  LET same(m) == CSpecs(t)[m].t = CSpecs(t)[i].t /\ ArgX(t, parg, m) = ArgX(t, parg, i)
+  \* (call-time options are part of the expression hash)
+  LET same(m) == CSpecs(t)[m].t = CSpecs(t)[i].t /\ ArgX(t, parg, m) = ArgX(t, parg, i) /\ CSpecs(t)[m].u = CSpecs(t)[i].u
   IN CHOOSE m \in 1..i : same(m) /\ \A m2 \in 1..(m - 1) : ~same(m2)
 JobIdx(t, parg, i) == Cardinality({SlotOf(t, parg, m) : m \in 1..SlotOf(t, parg, i)})
 DPos(t, parg) == {i \in 1..Len(CSpecs(t)) : SlotOf(t, parg, i) = i}
@@ -295,7 +299,8 @@ Done(j) ==
                   LET idx == k[Len(k)] IN
                   IF replayRec(idx)
                   THEN LET c == CHOOSE c \in CatchHit(spec(idx).t, argOf(idx)) : TRUE IN NewRec(c[4], <<0>>, c)
-                  ELSE NewJob(spec(idx).t, argOf(idx), IF known(idx) THEN "execq" ELSE "argwait")] @@ jobs1
+                  ELSE [NewJob(spec(idx).t, argOf(idx), IF known(idx) THEN "execq" ELSE "argwait")
+                          EXCEPT !.u = spec(idx).u]] @@ jobs1
       evKids == SelectSeq([idx \in 1..nd |-> [ty |-> "exec", j |-> Append(j, idx)]],
                           LAMBDA e : known(e.j[Len(e.j)]))
       evSelf == IF nd = 0 THEN << [ty |-> "resolve", j |-> j] >> ELSE <<>>
@@ -479,7 +484,7 @@ Holding == {j \in DOMAIN jobs : jobs[j].held}
 \* C08: used is exactly what submitted-and-unreported jobs hold, and never exceeds the limit
 HeldOK == \A r \in Res :
             /\ used[r] <= Limit(r)
-            /\ used[r] = FoldSet(LAMBDA j, a : a + Units(jobs[j].t, r), 0, Holding)
+            /\ used[r] = FoldSet(LAMBDA j, a : a + JU(jobs, j, r), 0, Holding)
 \* C06: a key is handed to an executor at most once per execution
 Once == \A i, i2 \in 1..Len(submitted) :
           (submitted[i] = submitted[i2] /\ Scope(submitted[i][1]) # "NONE") => i = i2
@@ -492,7 +497,7 @@ UnderFailed(j) == \E n \in 1..(Len(j) - 1) : jobs[SubSeq(j, 1, n)].ph = "rejecte
 Orphans == {j \in DOMAIN jobs : UnderFailed(j) /\ jobs[j].ph \notin {"resolved", "rejected"}}
 SettledAtReturn == (wf = "ok") =>
    /\ waiting = <<>> /\ running \subseteq Orphans
-   /\ \A r \in Res : used[r] = FoldSet(LAMBDA j, a : a + Units(jobs[j].t, r), 0, {j \in Orphans : jobs[j].held})
+   /\ \A r \in Res : used[r] = FoldSet(LAMBDA j, a : a + JU(jobs, j, r), 0, {j \in Orphans : jobs[j].held})
    /\ \A j \in DOMAIN jobs \ Orphans :
         jobs[j].ph = "resolved" \/ (jobs[j].ph = "rejected" /\ (jobs[j].caught \/ UnderFailed(j)))
 \* always TRUE; reports the programs in which a real run can return while a job is still running
